@@ -66,6 +66,10 @@ func c13check(text, form string, c sx.S, wellFormed bool) *parsed {
 	if strings.HasPrefix(bad, "decode:") {
 		return nil // yaml.v3 rejected the text: Parse must reject it too; nothing to compare
 	}
+	if strings.HasPrefix(bad, "accepted-undecodable") {
+		oracleFail("C13", "accepted-undecodable", c, bad)
+		return nil
+	}
 	if bad != "" {
 		oracleFail("C13", "panic", c, bad)
 		return nil
